@@ -1,8 +1,8 @@
 #!/bin/bash
 # runs every claimed check once (quick tier) and prints one line per property; exit 1 if any does not hold
-cd /verif
+cd ${VERIF_DIR:-/verif}
 rc=0
-for id in $(python3 -c "import json;print(' '.join(c['property_id'] for c in json.load(open('/verif/MANIFEST.json'))['checks']))"); do
+for id in $(python3 -c "import json;print(' '.join(c['property_id'] for c in json.load(open('MANIFEST.json'))['checks']))"); do
   out=$(./check $id --tier quick 2>&1 | grep -E "^RESULT|^VIOLATION|^ANCHOR|^REPORT" )
   line=$(echo "$out" | grep "^RESULT")
   echo "$line"
